@@ -207,7 +207,8 @@ def values_equal(a, b):
     if isinstance(a, Fresh) or isinstance(b, Fresh):
         if isinstance(a, Fresh) and isinstance(b, Fresh):
             return a == b
-        if isinstance(a, (Const, New, ListV, DictV, SelfV)) or isinstance(b, (Const, New, ListV, DictV, SelfV)):
+        if isinstance(a, (Const, New, ListV, DictV, SelfV, Sym)) or isinstance(b, (Const, New, ListV, DictV, SelfV, Sym)):
+            # (an input of the evaluated function is never an object created by the evaluated code itself)
             return False
     if isinstance(a, ListV) and isinstance(b, ListV):
         if len(a.items) != len(b.items):
@@ -234,6 +235,17 @@ def _lookup_error(v):
     if isinstance(v, CallV) and v.name == 'raise' and len(v.args) == 1 and isinstance(v.args[0], Opaque) \
             and v.args[0].text in ('KeyError', 'IndexError'):
         return v.args[0].text
+    return None
+
+
+def _raised(v):
+    """the exception class name when the value is a raised exception (``raise X(..)`` evaluated in a callee, a lookup that
+    certainly failed), else None"""
+    if isinstance(v, CallV) and v.name == 'raise' and len(v.args) == 1 and isinstance(v.args[0], Opaque):
+        t = v.args[0].text.split('(')[0].strip()
+        if t.endswith('?'):
+            return None
+        return t or 'BaseException'
     return None
 
 
@@ -296,6 +308,28 @@ class SymEx:
             s.env = s.stack.pop()       # every path has its own copy of the caller's frame
             outs.append((s, None if v is NORET else v))
         return outs
+
+    _BUILTIN_EXC = {'KeyError': ('LookupError', 'Exception', 'BaseException'), 'IndexError': ('LookupError', 'Exception', 'BaseException'),
+                    'ValueError': ('Exception', 'BaseException'), 'TypeError': ('Exception', 'BaseException'),
+                    'RuntimeError': ('Exception', 'BaseException'), 'NotImplementedError': ('RuntimeError', 'Exception', 'BaseException'),
+                    'AttributeError': ('Exception', 'BaseException'), 'StopIteration': ('Exception', 'BaseException'),
+                    'AssertionError': ('Exception', 'BaseException'), 'Exception': ('BaseException',), 'BaseException': ()}
+
+    def _exc_matches(self, kind, handler, func):
+        """does ``except <handler>`` catch an exception of class ``kind`` (both simple names)?"""
+        kind = kind.split('.')[-1]
+        if kind == handler or handler == 'BaseException':
+            return True
+        if kind in self._BUILTIN_EXC:
+            return handler in self._BUILTIN_EXC[kind]
+        for c in self.repo.all_classes():
+            if c.name == kind:
+                names = {b.name for b in self.repo.mro(c)} | set(self.repo.external_bases(c) or ())
+                if handler in names:
+                    return True
+                # a repository exception class: derives from Exception unless it says otherwise
+                return handler == 'Exception' and 'BaseException' not in names
+        return False
 
     # -- class constraints ----------------------------------------------------------------
     def classes_of(self, st, path):
@@ -391,12 +425,12 @@ class SymEx:
                             s2.yields.items.append(CallV('yieldfrom', [x]))
                     out.append((s2, NORET))
                 return out
-            return [(s2, NORET) for s2, _ in self.ev(v, st, func)]
+            return [(s2, x if _raised(x) else NORET) for s2, x in self.ev(v, st, func)]
         if isinstance(s, ast.Assign):
             out = []
             for s2, v in self.ev(s.value, st, func):
-                if _lookup_error(v):
-                    out.append((s2, v))         # the lookup failed: the statement is abandoned
+                if _raised(v):
+                    out.append((s2, v))         # the evaluation raised: the statement is abandoned
                     continue
                 for t in s.targets:
                     self.assign(t, v, s2, func)
@@ -500,13 +534,13 @@ class SymEx:
             # no exception is assumed inside the evaluated subset: body, else, finally
             out = []
             for s2, rv in self.block(s.body, st, func):
-                kind = _lookup_error(rv)
+                kind = _raised(rv)
                 if kind:
-                    # a failed dict / sequence lookup is the one exception the evaluated subset raises and catches
+                    # an exception raised in the body: the first handler that certainly matches it takes over
                     hnd = None
                     for h in s.handlers:
                         names = [norm(x) for x in (h.type.elts if isinstance(h.type, ast.Tuple) else [h.type])] if h.type is not None else None
-                        if names is None or any(n.split('.')[-1] in (kind, 'LookupError', 'Exception', 'BaseException') for n in names):
+                        if names is None or any(self._exc_matches(kind, n.split('.')[-1], func) for n in names):
                             hnd = h
                             break
                     if hnd is not None:
@@ -606,7 +640,12 @@ class SymEx:
                 st.fields[t.attr] = v
             elif isinstance(base, New):
                 if base.fields is None:
-                    base.fields = {}
+                    # not constructed yet (objects are built on first use): run the constructor before the store
+                    init = self.repo.lookup_method(base.cls, '__init__')
+                    if init is not None:
+                        self._construct(base, init)
+                    else:
+                        base.fields = {}
                 base.fields[t.attr] = v
             st.effects.append('%s = %r' % (norm(t), v))
         elif isinstance(t, (ast.Tuple, ast.List)):
